@@ -214,9 +214,6 @@ func (a *act) analyzeCFG() {
 				}
 			}
 			if found == nil {
-				if a.top {
-					a.e.cur.anchorErrs = append(a.e.cur.anchorErrs, fmt.Sprintf("%s/anchor:loop %s", a.name, ls.Anchor))
-				}
 				continue
 			}
 			if found.spec != nil && found.spec != ls {
@@ -229,6 +226,41 @@ func (a *act) analyzeCFG() {
 				}
 			}
 			found.spec = ls
+		}
+		// anchor drift: spec anchors whose text no longer occurs are bound, in order, to the loops that no spec
+		// claimed, when the two sets have the same size (a loop header was edited, not added or removed)
+		var freeSpecs []*LoopSpec
+		bound := map[*LoopSpec]bool{}
+		for _, li := range a.loops {
+			if li.spec != nil {
+				bound[li.spec] = true
+			}
+		}
+		for _, ls := range a.spec.Loops {
+			if !bound[ls] {
+				freeSpecs = append(freeSpecs, ls)
+			}
+		}
+		if len(freeSpecs) > 0 {
+			var freeLoops []*loopInfo
+			for _, li := range a.loops {
+				if li.spec == nil {
+					freeLoops = append(freeLoops, li)
+				}
+			}
+			sort.Slice(freeLoops, func(i, j int) bool { return freeLoops[i].ordinal < freeLoops[j].ordinal })
+			if len(freeLoops) == len(freeSpecs) {
+				for i, ls := range freeSpecs {
+					freeLoops[i].spec = ls
+					if a.top && a.e.cur != nil {
+						a.e.cur.drift = append(a.e.cur.drift, fmt.Sprintf("%s: loop anchor %q bound by position to %q", a.name, ls.Anchor, freeLoops[i].text))
+					}
+				}
+			} else if a.top {
+				for _, ls := range freeSpecs {
+					a.e.cur.anchorErrs = append(a.e.cur.anchorErrs, fmt.Sprintf("%s/anchor:loop %s", a.name, ls.Anchor))
+				}
+			}
 		}
 	}
 }
@@ -292,12 +324,25 @@ func siteName(c *ssa.CallCommon) string {
 // ---------------------------------------------------------------------------------------------
 
 func (a *act) obligation(kind, label string, pos token.Pos, guard, cond Term) {
+	a.obligationX(kind, label, pos, guard, cond, false)
+}
+
+// obligationX: auto = helper obligation of a loop without contract (range-index bounds, frame); such obligations
+// are not named in the ledger (their names follow the loop header text) but any failing one is reported.
+func (a *act) obligationX(kind, label string, pos token.Pos, guard, cond Term, auto bool) {
 	c := a.e.cur
 	if c.discovery > 0 {
 		return
 	}
 	f := implies(guard, cond)
-	base := a.name + "/" + kind
+	top := a
+	for top.caller != nil {
+		top = top.caller
+	}
+	if a != top {
+		label = "(" + a.name + ") " + label
+	}
+	base := top.name + "/" + kind
 	if label != "" {
 		base += ":" + label
 	}
@@ -308,7 +353,7 @@ func (a *act) obligation(kind, label string, pos token.Pos, guard, cond Term) {
 	}
 	if f.S == "true" {
 		// trivially discharged at generation time; still recorded so that counts are stable
-		ob := &Obligation{Name: name, Kind: kind, Pos: a.e.pos(pos), Formula: f, Fn: a.name, Result: "unsat", Solver: "simplifier"}
+		ob := &Obligation{Name: name, Kind: kind, Pos: a.e.pos(pos), Formula: f, Fn: top.name, Result: "unsat", Solver: "simplifier", Auto: auto}
 		ob.index = len(c.log.entries)
 		c.obligations = append(c.obligations, ob)
 		return
@@ -319,7 +364,7 @@ func (a *act) obligation(kind, label string, pos token.Pos, guard, cond Term) {
 		if rx, err := parseExpr(kf.Region); err == nil {
 			env := c.topAct.entryEnv(c.topAct.entry)
 			if rt, err := env.evalBool(rx); err == nil {
-				un := &Obligation{Name: name + "?unrestricted", Kind: kind, Pos: a.e.pos(pos), Formula: f, Fn: a.name, Inputs: c.inputs, kfUnrestricted: true, kfName: name}
+				un := &Obligation{Name: name + "?unrestricted", Kind: kind, Pos: a.e.pos(pos), Formula: f, Fn: top.name, Inputs: c.inputs, kfUnrestricted: true, kfName: name}
 				c.log.addOblig(un)
 				c.obligations = append(c.obligations, un)
 				f = implies(and(guard, not(rt)), cond)
@@ -330,7 +375,7 @@ func (a *act) obligation(kind, label string, pos token.Pos, guard, cond Term) {
 			c.anchorErrs = append(c.anchorErrs, fmt.Sprintf("known finding region %q: %v", kf.Region, err))
 		}
 	}
-	ob := &Obligation{Name: name, Kind: kind, Pos: a.e.pos(pos), Formula: f, Fn: a.name, Inputs: c.inputs}
+	ob := &Obligation{Name: name, Kind: kind, Pos: a.e.pos(pos), Formula: f, Fn: top.name, Inputs: c.inputs, Auto: auto}
 	c.log.addOblig(ob)
 	c.obligations = append(c.obligations, ob)
 }
@@ -636,13 +681,17 @@ func (a *act) loopEnv(li *loopInfo, st *State) *specEnv {
 	return env
 }
 
-func (a *act) autoInvariants(li *loopInfo, st *State) []Term {
-	var out []Term
+type autoInv struct {
+	label string
+	t     Term
+}
+
+func (a *act) autoInvariants(li *loopInfo, st *State) []autoInv {
+	var out []autoInv
 	if li.rangeIdx != nil && li.rangeLen != nil {
 		if iv, ok := st.locals[li.rangeIdx]; ok && iv.T != nil {
 			if lv, ok := a.vals[li.rangeLen]; ok && lv.T != nil {
-				out = append(out, and(app(SBool, "<=", intLit(-1), iv.T[0]), app(SBool, "<", iv.T[0], app(SInt, "imax", lv.T[0], intLit(0)))))
-				_ = lv
+				out = append(out, autoInv{"auto#1", and(app(SBool, "<=", intLit(-1), iv.T[0]), app(SBool, "<", iv.T[0], app(SInt, "imax", lv.T[0], intLit(0))))})
 			}
 		}
 	}
@@ -650,18 +699,54 @@ func (a *act) autoInvariants(li *loopInfo, st *State) []Term {
 		if pv, ok := st.locals[li.rangeIt]; ok && pv.T != nil {
 			if it, ok := a.vals[li.rangeIt]; ok {
 				if si, ok := it.Ext.(*StrIter); ok {
-					out = append(out, and(app(SBool, "<=", intLit(0), pv.T[0]), app(SBool, "<=", pv.T[0], app(SInt, "str.len", si.S.T[0]))))
+					out = append(out, autoInv{"auto#1", and(app(SBool, "<=", intLit(0), pv.T[0]), app(SBool, "<=", pv.T[0], app(SInt, "str.len", si.S.T[0])))})
 				}
 			}
+		}
+	}
+	// frame: objects that existed at function entry and are outside the function's modifies clause are
+	// unchanged at every loop head (for the heap families this loop writes)
+	c := a.e.cur
+	if fr := c.frame; fr != nil && !fr.anything && li.mod != nil {
+		var hs []string
+		for h := range li.mod.heaps {
+			hs = append(hs, h)
+		}
+		sort.Strings(hs)
+		for _, h := range hs {
+			if fr.wild[h] {
+				continue
+			}
+			srt, ok := c.heapSorts[h]
+			if !ok {
+				continue
+			}
+			h0 := a.e.heapGet(fr.entry, h, srt)
+			h1 := a.e.heapGet(st, h, srt)
+			if h0.S == h1.S {
+				continue
+			}
+			out = append(out, autoInv{"frame:" + strings.TrimPrefix(h, "H_"), frameFormula(h0, h1, fr.entry.alloc, fr.targets[h])})
 		}
 	}
 	return out
 }
 
+// frameFormula: every reference allocated before (r < alloc0) and not among targets has the same value in h1 as in h0.
+func frameFormula(h0, h1, alloc0 Term, targets []Term) Term {
+	r := Term{"r?frame", SInt}
+	var excl []Term
+	for _, t := range targets {
+		excl = append(excl, app(SBool, "distinct", r, t))
+	}
+	body := implies(and(append([]Term{app(SBool, "<", intLit(0), r), app(SBool, "<", r, alloc0)}, excl...)...), eq(sel(h1, r), sel(h0, r)))
+	return Term{fmt.Sprintf("(forall ((r?frame Int)) %s)", body.S), SBool}
+}
+
 func (a *act) checkInvariants(li *loopInfo, st *State, guard Term, when string, pos token.Pos) {
 	tag := fmt.Sprintf("loop[%s]", li.anchorName())
-	for i, t := range a.autoInvariants(li, st) {
-		a.obligation("invariant", fmt.Sprintf("%s/auto#%d:%s", tag, i+1, when), pos, guard, t)
+	for _, ai := range a.autoInvariants(li, st) {
+		a.obligationX("invariant", fmt.Sprintf("%s/%s:%s", tag, ai.label, when), pos, guard, ai.t, li.spec == nil)
 	}
 	if li.spec == nil {
 		return
@@ -678,8 +763,8 @@ func (a *act) checkInvariants(li *loopInfo, st *State, guard Term, when string, 
 }
 
 func (a *act) assumeInvariants(li *loopInfo, st *State, guard Term) {
-	for _, t := range a.autoInvariants(li, st) {
-		a.e.cur.log.assert(implies(guard, t))
+	for _, ai := range a.autoInvariants(li, st) {
+		a.e.cur.log.assert(implies(guard, ai.t))
 	}
 	if li.spec == nil {
 		return
@@ -696,6 +781,9 @@ func (a *act) assumeInvariants(li *loopInfo, st *State, guard Term) {
 }
 
 func (li *loopInfo) anchorName() string {
+	if li.spec != nil {
+		return li.spec.Anchor // stable even when the header text drifted
+	}
 	if li.stmt != nil && li.text != "" {
 		return li.text
 	}
